@@ -187,3 +187,404 @@ Example monitors_fire :
   m_leak (merge AsWritten leak_p leak_s) = true /\
   needs_typing_only (merge AsWritten nested_p nested_s) = false.
 Proof. vm_compute. split; reflexivity. Qed.
+
+
+(* ================================================================================================================ *)
+(* FILE LEVEL: merge_files / merge_files_src / merge_tree (Merge/Files.v).  Path strings are (leading slashes, components);
+   posixpath.join / normpath / abspath / relpath and os.walk are modelled as merge_tree uses them; [fixed] selects the loop
+   after (true) / before (false) commit b7143da; the file system is a directory tree plus the files written so far; the
+   per-file merge (merge_sources) and the text codec are parameters - every theorem below holds for ALL of them. *)
+From PV Require Import Merge.Files Merge.FilesProofs Merge.FilesLift.
+Close Scope N_scope.
+
+(* (b) AFTER b7143da: for every working directory, file system, py_path/pyi_path spelling (relative or absolute,
+   '.', '..', doubled and trailing separators) and every source tree (any depth, any entry names): the loop pairs the .py
+   file at relative path ds/f with exactly the stub location <stub root>/ds/f+'i', in os.walk order *)
+Theorem merge_tree_uses_own_stub :
+  forall (B : Type) (cwd : list name) (tree : node B) (top P : pth) (es : list (name * node B)),
+       nsl cwd ->
+       p_empty top = false ->
+       lookup B tree (lexloc cwd top) = Some (Dir es) ->
+       names_ok (walk_dirs B (Dir es) nil) ->
+       map (fun j : pth * pth => (lexloc cwd (fst j), lexloc cwd (snd j))) (jobs B true cwd tree top P) =
+       flat_map
+         (fun e : list name * list name =>
+          map
+            (fun f : name =>
+             (lexloc cwd top ++ fst e ++ f :: nil, lexloc cwd P ++ fst e ++ stub_name f :: nil))
+            (filter ends_py (snd e))) (walk_dirs B (Dir es) nil).
+Proof. exact jobs_fixed_locs. Qed.
+Print Assumptions merge_tree_uses_own_stub.
+
+(* the files written, the changed list and the error list are the PER-FILE results, each computed from the ORIGINAL
+   file system (jo [] j = merge_files on the untouched tree); hypotheses: no iteration reads what an earlier one wrote
+   (indep: refuted without it below) and no non-MergeError exception (no_raise: refuted without it below) *)
+Theorem merge_tree_is_map :
+  forall (B T : Type) (read : B -> option T) (write : T -> B) (teqb : T -> T -> bool)
+         (msrc : T -> T -> option T) (cwd : loc) (tree : node B) (backup : option name) 
+         (fixed : bool) (top P : pth),
+       let js := jobs B fixed cwd tree top P in
+       indep B T read write teqb msrc cwd tree backup nil js ->
+       no_raise B T read teqb msrc cwd tree backup nil js ->
+       let r := merge_tree B T read write teqb msrc fixed cwd tree top P backup in
+       t_ov B r = flat_map (jwrites B T read write teqb msrc cwd tree backup nil) (rev js) /\
+       t_changed B r =
+       map fst
+         (filter (fun j : pth * pth => is_changed B T (jo B T read teqb msrc cwd tree backup nil j)) js) /\
+       t_errors B r =
+       map fst (filter (fun j : pth * pth => is_err B T (jo B T read teqb msrc cwd tree backup nil j)) js) /\
+       t_raised B r = false.
+Proof. exact merge_tree_spec. Qed.
+Print Assumptions merge_tree_is_map.
+
+(* files without stub, non-.py files, the stub tree, everything that is not a rewritten source or its backup: unchanged *)
+Theorem merge_tree_unchanged_elsewhere :
+  forall (B T : Type) (read : B -> option T) (write : T -> B) (teqb : T -> T -> bool)
+         (msrc : T -> T -> option T) (cwd : loc) (tree : node B) (backup : option name) 
+         (fixed : bool) (top P : pth) (l : loc),
+       let js := jobs B fixed cwd tree top P in
+       indep B T read write teqb msrc cwd tree backup nil js ->
+       no_raise B T read teqb msrc cwd tree backup nil js ->
+       (forall j : pth * pth,
+        In j js -> ~ In l (map fst (jwrites B T read write teqb msrc cwd tree backup nil j))) ->
+       st_read B tree (t_ov B (merge_tree B T read write teqb msrc fixed cwd tree top P backup)) l =
+       st_read B tree nil l.
+Proof. exact merge_tree_untouched. Qed.
+Print Assumptions merge_tree_unchanged_elsewhere.
+
+(* each rewritten source holds write(merge_sources(own text, own stub text)), each backup the original bytes *)
+Theorem merge_tree_result_files :
+  forall (B T : Type) (read : B -> option T) (write : T -> B) (teqb : T -> T -> bool)
+         (msrc : T -> T -> option T) (cwd : loc) (tree : node B) (backup : option name) 
+         (fixed : bool) (top P : pth) (l : loc) (c : B),
+       let js := jobs B fixed cwd tree top P in
+       indep B T read write teqb msrc cwd tree backup nil js ->
+       no_raise B T read teqb msrc cwd tree backup nil js ->
+       NoDup (map fst (flat_map (jwrites B T read write teqb msrc cwd tree backup nil) (rev js))) ->
+       (exists j : pth * pth, In j js /\ In (l, c) (jwrites B T read write teqb msrc cwd tree backup nil j)) ->
+       st_read B tree (t_ov B (merge_tree B T read write teqb msrc fixed cwd tree top P backup)) l = RFile c.
+Proof. exact merge_tree_written. Qed.
+Print Assumptions merge_tree_result_files.
+
+(* conversely: whatever a location holds afterwards is its original content or one of the per-file writes *)
+Theorem merge_tree_file_provenance :
+  forall (B T : Type) (read : B -> option T) (write : T -> B) (teqb : T -> T -> bool)
+         (msrc : T -> T -> option T) (cwd : loc) (tree : node B) (backup : option name) 
+         (fixed : bool) (top P : pth) (l : loc) (c : B),
+       let js := jobs B fixed cwd tree top P in
+       indep B T read write teqb msrc cwd tree backup nil js ->
+       no_raise B T read teqb msrc cwd tree backup nil js ->
+       st_read B tree (t_ov B (merge_tree B T read write teqb msrc fixed cwd tree top P backup)) l = RFile c ->
+       st_read B tree nil l = RFile c \/
+       (exists j : pth * pth, In j js /\ In (l, c) (jwrites B T read write teqb msrc cwd tree backup nil j)).
+Proof. exact merge_tree_final_read. Qed.
+Print Assumptions merge_tree_file_provenance.
+
+(* a file whose stub location does not exist is skipped (no write at all) *)
+Theorem merge_tree_no_stub_skipped :
+  forall (B T : Type) (read : B -> option T) (teqb : T -> T -> bool) (msrc : T -> T -> option T)
+         (cwd : loc) (tree : node B) (backup : option name) (ov0 : overlay B) (j : pth * pth),
+       jo B T read teqb msrc cwd tree backup ov0 j = JSkip B T <->
+       st_read B tree ov0 (lexloc cwd (snd j)) = RNone.
+Proof. exact jo_skip_iff. Qed.
+Print Assumptions merge_tree_no_stub_skipped.
+
+(* what 'changed' means for one file: both files readable, merge_sources succeeded, its text differs from the source text *)
+Theorem merge_tree_changed_means :
+  forall (B T : Type) (read : B -> option T) (teqb : T -> T -> bool) (msrc : T -> T -> option T)
+         (cwd : loc) (tree : node B) (backup : option name) (ov0 : overlay B) (j : pth * pth) 
+         (pb : B) (a : T),
+       jo B T read teqb msrc cwd tree backup ov0 j = JChanged B T pb a ->
+       exists (sb : B) (s p : T),
+         st_read B tree ov0 (lexloc cwd (snd j)) = RFile sb /\
+         read sb = Some s /\
+         st_read B tree ov0 (lexloc cwd (fst j)) = RFile pb /\
+         read pb = Some p /\ msrc p s = Some a /\ teqb a p = false.
+Proof. exact jo_changed_inv. Qed.
+Print Assumptions merge_tree_changed_means.
+
+(* (c) PRINT and DIFF never write *)
+Theorem merge_files_print_diff_never_write :
+  forall (B T : Type) (read : B -> option T) (write : T -> B) (teqb : T -> T -> bool)
+         (msrc : T -> T -> option T) (cwd : loc) (tree : node B) (backup : option name) 
+         (ov : overlay B) (py pyi : pth) (m : mode),
+       m <> OVERWRITE -> f_ov B T (merge_files B T read write teqb msrc cwd tree ov py pyi m backup) = ov.
+Proof. exact mfiles_print_diff. Qed.
+Print Assumptions merge_files_print_diff_never_write.
+
+(* (c) any mode: unless the result is `changed`, nothing is written (also on MergeError / other exceptions) *)
+Theorem merge_files_writes_only_if_changed :
+  forall (B T : Type) (read : B -> option T) (write : T -> B) (teqb : T -> T -> bool)
+         (msrc : T -> T -> option T) (cwd : loc) (tree : node B) (backup : option name) 
+         (ov : overlay B) (py pyi : pth) (m : mode),
+       f_res B T (merge_files B T read write teqb msrc cwd tree ov py pyi m backup) <> FOk true ->
+       f_ov B T (merge_files B T read write teqb msrc cwd tree ov py pyi m backup) = ov.
+Proof. exact mfiles_no_write. Qed.
+Print Assumptions merge_files_writes_only_if_changed.
+
+(* (c) OVERWRITE and changed: the source holds write(merged text); the backup (iff a non-empty extension is given) holds the
+   ORIGINAL BYTES (binary copy, not the decoded text); nothing else is written *)
+Theorem merge_files_overwrite_writes_and_backs_up :
+  forall (B T : Type) (read : B -> option T) (write : T -> B) (teqb : T -> T -> bool)
+         (msrc : T -> T -> option T) (cwd : loc) (tree : node B) (backup : option name) 
+         (ov : overlay B) (py pyi : pth),
+       f_res B T (merge_files B T read write teqb msrc cwd tree ov py pyi OVERWRITE backup) = FOk true ->
+       exists (sb : B) (s : T) (pb : B) (p a : T),
+         st_read B tree ov (lexloc cwd pyi) = RFile sb /\
+         read sb = Some s /\
+         st_read B tree ov (lexloc cwd py) = RFile pb /\
+         read pb = Some p /\
+         msrc p s = Some a /\
+         teqb a p = false /\
+         f_ov B T (merge_files B T read write teqb msrc cwd tree ov py pyi OVERWRITE backup) =
+         (lexloc cwd py, write a)
+         :: match truthy backup with
+            | Some bk => (lexloc cwd (backup_path py bk), pb) :: nil
+            | None => nil
+            end ++ ov.
+Proof. exact mfiles_overwrite_changed. Qed.
+Print Assumptions merge_files_overwrite_writes_and_backs_up.
+
+(* (c) the returned flag is exactly 'merged text <> source text as read in text mode' (every mode) *)
+Theorem merge_files_changed_flag_exact :
+  forall (B T : Type) (read : B -> option T) (write : T -> B) (teqb : T -> T -> bool)
+         (msrc : T -> T -> option T) (cwd : loc) (tree : node B) (backup : option name) 
+         (ov : overlay B) (py pyi : pth) (m : mode) (ch : bool) (sb : B) (s : T) 
+         (pb : B) (p a : T),
+       (forall x y : T, teqb x y = true <-> x = y) ->
+       st_read B tree ov (lexloc cwd pyi) = RFile sb ->
+       read sb = Some s ->
+       st_read B tree ov (lexloc cwd py) = RFile pb ->
+       read pb = Some p ->
+       msrc p s = Some a ->
+       f_res B T (merge_files B T read write teqb msrc cwd tree ov py pyi m backup) = FOk ch ->
+       ch = true <-> a <> p.
+Proof. exact mfiles_changed_flag. Qed.
+Print Assumptions merge_files_changed_flag_exact.
+
+(* lifting to whole trees (contents = the mini syntax trees of Merge/Model.v, merge_sources = the model [merge v]; any equality test):
+   every file afterwards is its original, or merge of its original with the stub the loop paired it with, or a backup copy *)
+Theorem tree_files_are_own_merges :
+  forall (v : variant) (teqb : list item -> list item -> bool) (cwd : loc) (tree : node (list item))
+         (backup : option name) (fixed : bool) (top P : pth) (l : loc) (c' : list item),
+       indep (list item) (list item) Some (fun t : list item => t) teqb (msrc_model v) cwd tree backup nil
+         (jobs (list item) fixed cwd tree top P) ->
+       no_raise (list item) (list item) Some teqb (msrc_model v) cwd tree backup nil
+         (jobs (list item) fixed cwd tree top P) ->
+       st_read (list item) tree
+         (t_ov (list item)
+            (merge_tree (list item) (list item) Some (fun t : list item => t) teqb 
+               (msrc_model v) fixed cwd tree top P backup)) l = RFile c' ->
+       st_read (list item) tree nil l = RFile c' \/
+       (exists (j : pth * pth) (c s : list item),
+          In j (jobs (list item) fixed cwd tree top P) /\
+          l = lexloc cwd (fst j) /\
+          st_read (list item) tree nil l = RFile c /\
+          st_read (list item) tree nil (lexloc cwd (snd j)) = RFile s /\
+          m_err (merge v c s) = false /\ c' = m_out (merge v c s)) \/
+       (exists (j : pth * pth) (bk : name),
+          In j (jobs (list item) fixed cwd tree top P) /\
+          truthy backup = Some bk /\
+          l = lexloc cwd (backup_path (fst j) bk) /\
+          st_read (list item) tree nil (lexloc cwd (fst j)) = RFile c').
+Proof. exact tree_file_cases. Qed.
+Print Assumptions tree_files_are_own_merges.
+
+(* existing_kept for whole trees *)
+Theorem tree_existing_kept :
+  forall (v : variant) (teqb : list item -> list item -> bool) (cwd : loc) (tree : node (list item))
+         (backup : option name) (fixed : bool) (top P : pth) (l : loc) (c c' : list item),
+       indep (list item) (list item) Some (fun t : list item => t) teqb (msrc_model v) cwd tree backup nil
+         (jobs (list item) fixed cwd tree top P) ->
+       no_raise (list item) (list item) Some teqb (msrc_model v) cwd tree backup nil
+         (jobs (list item) fixed cwd tree top P) ->
+       st_read (list item) tree nil l = RFile c ->
+       st_read (list item) tree
+         (t_ov (list item)
+            (merge_tree (list item) (list item) Some (fun t : list item => t) teqb 
+               (msrc_model v) fixed cwd tree top P backup)) l = RFile c' ->
+       (forall (j : pth * pth) (bk : name),
+        In j (jobs (list item) fixed cwd tree top P) ->
+        truthy backup = Some bk -> l <> lexloc cwd (backup_path (fst j) bk)) ->
+       forall (i : nat) (sl : slot) (a : expr),
+       ann_at c i = Some sl ->
+       s_ann sl = Some a ->
+       exists sl' : slot,
+         ann_at c' i = Some sl' /\
+         s_qn sl' = s_qn sl /\ s_shape sl' = s_shape sl /\ s_which sl' = s_which sl /\ s_ann sl' = Some a.
+Proof. exact tree_existing_kept_lemma. Qed.
+Print Assumptions tree_existing_kept.
+
+(* no_bare_any_never_partial (returns) for whole trees *)
+Theorem tree_no_bare_any_never_partial :
+  forall (v : variant) (teqb : list item -> list item -> bool) (cwd : loc) (tree : node (list item))
+         (backup : option name) (fixed : bool) (top P : pth) (l : loc) (c c' : list item),
+       indep (list item) (list item) Some (fun t : list item => t) teqb (msrc_model v) cwd tree backup nil
+         (jobs (list item) fixed cwd tree top P) ->
+       no_raise (list item) (list item) Some teqb (msrc_model v) cwd tree backup nil
+         (jobs (list item) fixed cwd tree top P) ->
+       st_read (list item) tree nil l = RFile c ->
+       st_read (list item) tree
+         (t_ov (list item)
+            (merge_tree (list item) (list item) Some (fun t : list item => t) teqb 
+               (msrc_model v) fixed cwd tree top P backup)) l = RFile c' ->
+       (forall (j : pth * pth) (bk : name),
+        In j (jobs (list item) fixed cwd tree top P) ->
+        truthy backup = Some bk -> l <> lexloc cwd (backup_path (fst j) bk)) ->
+       (forall (j : pth * pth) (s : list item),
+        In j (jobs (list item) fixed cwd tree top P) ->
+        st_read (list item) tree nil (lexloc cwd (snd j)) = RFile s ->
+        forallb (rets_ok not_dotted_any) s = true) ->
+       forall (i : nat) (sl sl' : slot) (a : expr),
+       ann_at c i = Some sl ->
+       s_ann sl = None ->
+       ann_at c' i = Some sl' -> s_ann sl' = Some a -> s_which sl = WRet -> bare_any_never a = false.
+Proof. exact tree_no_bare_returns_lemma. Qed.
+Print Assumptions tree_no_bare_any_never_partial.
+
+(* inserted_from_stub_partial for whole trees: the inserted annotation is the one the file's OWN stub gives *)
+Theorem tree_inserted_from_stub_partial :
+  forall (v : variant) (teqb : list item -> list item -> bool) (cwd : loc) (tree : node (list item))
+         (backup : option name) (fixed : bool) (top P : pth) (l : loc) (c c' : list item),
+       indep (list item) (list item) Some (fun t : list item => t) teqb (msrc_model v) cwd tree backup nil
+         (jobs (list item) fixed cwd tree top P) ->
+       no_raise (list item) (list item) Some teqb (msrc_model v) cwd tree backup nil
+         (jobs (list item) fixed cwd tree top P) ->
+       st_read (list item) tree nil l = RFile c ->
+       st_read (list item) tree
+         (t_ov (list item)
+            (merge_tree (list item) (list item) Some (fun t : list item => t) teqb 
+               (msrc_model v) fixed cwd tree top P backup)) l = RFile c' ->
+       (forall (j : pth * pth) (bk : name),
+        In j (jobs (list item) fixed cwd tree top P) ->
+        truthy backup = Some bk -> l <> lexloc cwd (backup_path (fst j) bk)) ->
+       (forall (j : pth * pth) (s : list item),
+        In j (jobs (list item) fixed cwd tree top P) ->
+        l = lexloc cwd (fst j) ->
+        st_read (list item) tree nil (lexloc cwd (snd j)) = RFile s ->
+        dotted_free (filter_stub v s) = true /\
+        m_leak (merge v c s) = false /\ m_clsdecl (merge v c s) = false) ->
+       forall (i : nat) (sl sl' : slot) (a : expr),
+       ann_at c i = Some sl ->
+       s_ann sl = None ->
+       ann_at c' i = Some sl' ->
+       s_ann sl' = Some a ->
+       exists (j : pth * pth) (s : list item) (a0 : expr),
+         In j (jobs (list item) fixed cwd tree top P) /\
+         l = lexloc cwd (fst j) /\
+         st_read (list item) tree nil (lexloc cwd (snd j)) = RFile s /\
+         stub_gives (stub_all (filter_stub v s)) sl a0 /\ same_ann a a0.
+Proof. exact tree_inserted_from_stub_lemma. Qed.
+Print Assumptions tree_inserted_from_stub_partial.
+
+(* posixpath.relpath(root, top) for a root that lies ds below top *)
+Theorem relpath_of_descendant :
+  forall (cwd : list name) (root top : pth) (ds : list name),
+       nsl cwd ->
+       p_empty root = false ->
+       lexloc cwd root = lexloc cwd top ++ ds ->
+       relpath cwd root top =
+       Some
+         (if is_nil ds then {| p_abs := 0; p_comps := n_dot :: nil |} else {| p_abs := 0; p_comps := ds |}).
+Proof. exact relpath_below. Qed.
+Print Assumptions relpath_of_descendant.
+
+(* posixpath.normpath never changes where a path leads (lexical resolution) *)
+Theorem normpath_same_place :
+  forall (cwd : loc) (p : pth), lexloc cwd (normpath p) = lexloc cwd p.
+Proof. exact lexloc_normpath. Qed.
+Print Assumptions normpath_same_place.
+
+(* posixpath.join with a relative second argument continues the walk *)
+Theorem join_continues_walk :
+  forall (cwd : loc) (a b : pth),
+       isabs b = false -> lexloc cwd (join a b) = lexwalk (lexloc cwd a) (p_comps b).
+Proof. exact lexloc_join. Qed.
+Print Assumptions join_continues_walk.
+
+(* the component list relpath computes from abspath is the lexical location *)
+Theorem abspath_components :
+  forall (cwd : list name) (p : pth), nsl cwd -> abs_list cwd p = lexloc cwd p.
+Proof. exact abs_list_loc. Qed.
+Print Assumptions abspath_components.
+
+(* ---- refutations (witnesses by computation; toy merge_sources = stub text in front of the source text) ---- *)
+(* BEFORE b7143da (fixed = false): under the hypotheses of merge_tree_uses_own_stub, src/sub/a.py is NOT paired with
+   s/sub/a.pyi but with a.pyi one directory ABOVE the stub root s; the tree merge then inserts the decoy's text (3) where the
+   fixed loop inserts the own stub's (2). *)
+Theorem merge_tree_before_fix_refuted :
+  nsl nil /\ p_empty w_top = false /\
+  (exists es, lookup _ w_tree (lexloc nil w_top) = Some (Dir es) /\ names_ok (walk_dirs _ (Dir es) nil)) /\
+  In (lexloc nil w_top ++ nm_sub :: nm_a_py :: nil, removelast (lexloc nil w_P) ++ stub_name nm_a_py :: nil)
+     (map (locs nil) (jobs _ false nil w_tree w_top w_P)) /\
+  ~ In (lexloc nil w_top ++ nm_sub :: nm_a_py :: nil, lexloc nil w_P ++ nm_sub :: stub_name nm_a_py :: nil)
+       (map (locs nil) (jobs _ false nil w_tree w_top w_P)) /\
+  st_read _ w_tree (t_ov _ (merge_tree _ _ read_text write_text text_eqb toy_msrc false nil w_tree w_top w_P None))
+          (nm_src :: nm_sub :: nm_a_py :: nil) = RFile (51 :: 121 :: 10 :: nil)%N /\
+  st_read _ w_tree (t_ov _ (merge_tree _ _ read_text write_text text_eqb toy_msrc true nil w_tree w_top w_P None))
+          (nm_src :: nm_sub :: nm_a_py :: nil) = RFile (50 :: 121 :: 10 :: nil)%N.
+Proof. exact before_fix_witness. Qed.
+Print Assumptions merge_tree_before_fix_refuted.
+
+(* merge_tree_unchanged_elsewhere WITHOUT indep (both variants): stubs next to the sources, backup extension "pyi": the backup
+   of a.py is a.py.pyi, which the loop then takes for the stub of a.py.py - a file that has no stub is rewritten. *)
+Theorem merge_tree_backup_collision_refuted :
+  let js := jobs _ false nil c_tree c_top c_top in
+  let jsf := jobs _ true nil c_tree c_top c_top in
+  js = jsf /\
+  no_raise _ _ read_text text_eqb toy_msrc nil c_tree c_bk nil jsf /\
+  (forall j, In j jsf ->
+     ~ In (nm_d :: nm_a_py_py :: nil)
+          (map fst (jwrites _ _ read_text write_text text_eqb toy_msrc nil c_tree c_bk nil j))) /\
+  st_read _ c_tree nil (nm_d :: nm_a_py_py :: nil) = RFile (121 :: 10 :: nil)%N /\
+  st_read _ c_tree (t_ov _ (merge_tree _ _ read_text write_text text_eqb toy_msrc true nil c_tree c_top c_top c_bk))
+          (nm_d :: nm_a_py_py :: nil) = RFile (120 :: 10 :: 121 :: 10 :: nil)%N.
+Proof. exact backup_collision_witness. Qed.
+Print Assumptions merge_tree_backup_collision_refuted.
+
+(* "errors are collected per file" WITHOUT no_raise: a source that is not valid utf-8 raises UnicodeDecodeError, which is
+   not a MergeError: merge_tree stops, nothing is recorded in the error list, and b.py (which has a stub that changes
+   it) is never merged. *)
+Theorem merge_tree_errors_per_file_refuted :
+  let r := merge_tree _ _ read_text write_text text_eqb toy_msrc true nil u_tree c_top c_top None in
+  t_raised _ r = true /\ t_ov _ r = nil /\ t_errors _ r = nil /\
+  exists j, In j (jobs _ true nil u_tree c_top c_top) /\
+            is_changed _ _ (jo _ _ read_text text_eqb toy_msrc nil u_tree None nil j) = true.
+Proof. exact undecodable_witness. Qed.
+Print Assumptions merge_tree_errors_per_file_refuted.
+
+(* (c) text mode: what open(p).read() returns never contains a carriage return (universal newlines), so a rewritten file
+   (write_text leaves \n alone on Linux) has LF line ends whatever the original had; the backup keeps the original bytes. *)
+Theorem text_mode_read_has_no_cr : forall (b t : list N), read_text b = Some t -> ~ In 13%N t.
+Proof. exact read_text_no_cr. Qed.
+Print Assumptions text_mode_read_has_no_cr.
+
+(* ---- non-vacuity: on the witness tree with the FIXED loop and backup extension "bak" all hypotheses of the tree theorems
+   hold, both sources are rewritten from their own stubs, both backups hold the originals, the changed list is complete ---- *)
+Definition demo_bk : option name := Some (98 :: 97 :: 107 :: nil)%N.
+Example tree_hypotheses_hold :
+  let js := jobs _ true nil w_tree w_top w_P in
+  let r := merge_tree _ _ read_text write_text text_eqb toy_msrc true nil w_tree w_top w_P demo_bk in
+  indep _ _ read_text write_text text_eqb toy_msrc nil w_tree demo_bk nil js /\
+  no_raise _ _ read_text text_eqb toy_msrc nil w_tree demo_bk nil js /\
+  NoDup (map fst (flat_map (jwrites _ _ read_text write_text text_eqb toy_msrc nil w_tree demo_bk nil) (rev js))) /\
+  length (t_ov _ r) = 4 /\ t_changed _ r = map fst js /\ t_errors _ r = nil /\
+  st_read _ w_tree (t_ov _ r) (nm_src :: nm_a_py :: nil) = RFile (49 :: 120 :: 10 :: nil)%N /\
+  st_read _ w_tree (t_ov _ r) (nm_src :: nm_sub :: nm_a_py :: nil) = RFile (50 :: 121 :: 10 :: nil)%N.
+Proof.
+  cbv zeta. remember (jobs _ true nil w_tree w_top w_P) as js eqn:E. vm_compute in E. subst js.
+  split.
+  { cbn [indep]. split; [|split; [|exact I]].
+    - intros j l Hj Hl. destruct Hj as [<-|[]]. vm_compute in Hl. destruct Hl as [<-|[<-|[]]]; split; discriminate.
+    - intros j l []. }
+  split.
+  { intros j Hj. destruct Hj as [<-|[<-|[]]]; vm_compute; reflexivity. }
+  split.
+  { vm_compute. repeat constructor; cbn; intuition discriminate. }
+  repeat split; vm_compute; reflexivity.
+Qed.
+Example crlf_is_rewritten_as_lf :
+  read_text (120 :: 13 :: 10 :: 121 :: 13 :: 122 :: 10 :: nil)%N = Some (120 :: 10 :: 121 :: 10 :: 122 :: 10 :: nil)%N /\
+  write_text (120 :: 10 :: 233 :: nil)%N = (120 :: 10 :: 195 :: 169 :: nil)%N /\
+  read_text (255 :: nil)%N = None.
+Proof. vm_compute. repeat split; reflexivity. Qed.
